@@ -347,7 +347,37 @@ impl Gen {
                     3 => Some(Exp::H(c.height.saturating_sub(1))),
                     _ => None,
                 };
-                match self.rng.below(8) {
+                // prefer an existing (owner, spender) allowance for the *From operations
+                let mut pairs: Vec<(Id, Id, u128)> = vec![];
+                for o in USERS.iter() {
+                    for s in USERS.iter() {
+                        if let Some((amt, _)) = c.token_allowance(tok, *o, *s) {
+                            if amt > 0 {
+                                pairs.push((*o, *s, amt));
+                            }
+                        }
+                    }
+                }
+                let k = self.rng.below(8);
+                if k >= 3 && !pairs.is_empty() && self.rng.chance(5, 6) {
+                    let (o, sp, allow) = self.rng.pick(&pairs);
+                    let ob = c.token_balance(tok, o);
+                    let cap = allow.min(ob).max(1);
+                    let amt = match self.rng.below(6) {
+                        0 => allow,
+                        1 => allow + 1,
+                        2 => cap,
+                        _ => 1 + self.rng.below128(cap),
+                    };
+                    return match k {
+                        3 => tx(o, tok, Call::Tok(TokMsg::DecAllow(sp, amt, e))),
+                        4 => tx(sp, tok, Call::Tok(TokMsg::TransferFrom(o, self.rng.pick(&USERS), amt))),
+                        5 => tx(sp, tok, Call::Tok(TokMsg::SendFrom(o, HUB, amt, if self.rng.chance(3, 4) { Hook::Unbond } else { Hook::Convert }))),
+                        6 => tx(sp, tok, Call::Tok(TokMsg::BurnFrom(o, amt))),
+                        _ => tx(sp, tok, Call::Tok(TokMsg::TransferFrom(o, sp, amt))),
+                    };
+                }
+                match k {
                     0 | 1 | 2 => tx(owner, tok, Call::Tok(TokMsg::IncAllow(spender, a, e))),
                     3 => tx(owner, tok, Call::Tok(TokMsg::DecAllow(spender, a, e))),
                     4 => tx(spender, tok, Call::Tok(TokMsg::TransferFrom(owner, self.rng.pick(&USERS), a))),
